@@ -93,9 +93,14 @@ package queue
 //@     v.v.Value.(*fpb.Value_UintValue).UintValue.Value >= v.v.Value.(*fpb.Value_UintValue).UintValue.Distribution.(*fpb.UintValue_Range).Range.Minimum
 //@     && v.v.Value.(*fpb.Value_UintValue).UintValue.Value <= v.v.Value.(*fpb.Value_UintValue).UintValue.Distribution.(*fpb.UintValue_Range).Range.Maximum
 
+// A double range never lets the value leave [minimum, maximum] (whatever the draw: the clamps apply to every step).
+//@ pred DRange(v *value) := v.v.Value.(*fpb.Value_DoubleValue).DoubleValue.Distribution.(*fpb.DoubleValue_Range).Range
 //@ func (*value).updateDoubleValue
 //@   props C20 C12
 //@   requires ValWf(v)
+//@   ensures [a-ranged-double-stays-inside-its-range C20] res0 == nil && isa(v.v.Value.(*fpb.Value_DoubleValue)) && v.v.Value.(*fpb.Value_DoubleValue).DoubleValue != nil
+//@     && isa(v.v.Value.(*fpb.Value_DoubleValue).DoubleValue.Distribution.(*fpb.DoubleValue_Range)) && DRange(v) != nil
+//@     ==> !(v.v.Value.(*fpb.Value_DoubleValue).DoubleValue.Value > DRange(v).Maximum) && !(v.v.Value.(*fpb.Value_DoubleValue).DoubleValue.Value < DRange(v).Minimum)
 //@   modifies v.v.Value.(*fpb.Value_DoubleValue).DoubleValue.Value, heap(fpb.DoubleList.Options), elems(v.v.Value.(*fpb.Value_DoubleValue).DoubleValue.Distribution.(*fpb.DoubleValue_List).List.Options), ghost draws, ghost lastDraw
 //@ func (*value).updateStringValue
 //@   props C20 C12
